@@ -92,14 +92,24 @@ def replay(case):
     if A2 != A:
         evs.append({"op": "build", "kind": case["kind"], "calls": tagged, "outs": outs, "A": A2, "after": True})
         return evs
-    # phase 2: change the automaton after it was converted once, and convert again (memoised results must not survive)
+    # phase 2: change the automaton after it was converted, one mutator at a time, and convert again after each
+    # (memoised results must not survive any public mutator, including those a subclass overrides)
     sts = sorted(a.states, key=fa.tag)
-    if sts:
-        for op, st in (("add_start_state", sts[-1]), ("add_final_state", sts[0])):
-            guard.call(getattr(a, op), st.value)
+    if not sts:
+        return evs
+    trans = sorted(((s, y, t) for s, y, t in a), key=lambda x: (fa.tag(x[0]), fa.tag_sym(x[1]), fa.tag(x[2])))
+    muts = [("add_start_state", (sts[-1].value,)), ("add_final_state", (sts[0].value,)), ("remove_start_state", (sts[-1].value,))]
+    if trans:
+        muts.append(("remove_transition", tuple(x.value if not isinstance(x, fa.Epsilon) else x for x in trans[0])))
+    muts.append(("remove_final_state", (sts[0].value,)))
+    for ph, (op, args) in enumerate(muts):
+        if (len(case["calls"]) + ph) % 2 and ph > 1:
+            continue            # a sample of the later mutators keeps the quick tier short
+        guard.call(getattr(a, op), *args)
         A3 = fa.project(a)
         r = guard.call(a.to_regex, timeout=4.0)
-        ev = {"op": "to_regex", "A": A3, "plain": True, "words": [[fa.tag(x) for x in w] for w in words], "acc": [], "phase": 2}
+        ev = {"op": "to_regex", "A": A3, "plain": True, "words": [[fa.tag(x) for x in w] for w in words], "acc": [],
+              "phase": 2 + ph, "after": op}
         if r[0] == "ok":
             r2 = guard.call(r[1].to_epsilon_nfa, timeout=4.0)
             if r2[0] == "ok":
